@@ -33,6 +33,7 @@ type Version struct {
 	NoCond      bool   `json:"no_cond,omitempty"`     // ignore conditional request headers (always full answer)
 	CondStatus  int    `json:"cond_status,omitempty"` // answer conditional requests with this status instead (e.g. 500)
 	AbortAfter  int    `json:"abort_after,omitempty"` // >0: close the connection after this many body bytes
+	Bare416     bool   `json:"bare_416,omitempty"`    // a 416 carries none of Headers (freshness belongs to the representation, not to the refusal)
 	SlowMs      int    `json:"slow_ms,omitempty"`     // >0: pause this long in the middle of the body (a transfer that takes time)
 }
 
@@ -172,6 +173,12 @@ func (s *Site) Handler() Handler {
 					return
 				case ref.RangeRefuse:
 					if rv.Shape != "multi" && rv.Shape != "other-unit" && rv.Shape != "no-equals" && rv.Shape != "last<first" {
+						if v.Bare416 {
+							// a range refusal says nothing about how long the representation may be kept
+							for _, hv := range v.Headers {
+								h.Del(hv.K)
+							}
+						}
 						h.Set("Content-Range", fmt.Sprintf("bytes */%d", len(body)))
 						e.Status = 416
 						http.Error(w, "range not satisfiable", 416)
